@@ -3,6 +3,7 @@
  *  1. the variadic libc entry point open() is routed to a two-argument stub (CBMC's frame
  *     instrumentation does not follow variadic callees);
  *     likewise snprintf/sprintf are routed to stubs that check the destination and forget the text;
+ *     and, in units that need exact strchr on a bounded command name, strchr() to an exact loop;
  *  2. lbuf_save() contains `mtime > 0`, an ordered comparison of the ADDRESS of the function
  *     mtime with 0.  That is outside ISO C; every compiler evaluates it to true, CBMC to false.
  *     A function-like macro renames the function (calls and definition) to mtime_fn and leaves the
@@ -17,6 +18,11 @@ static int verif_sprintf(char *s);
 #include <stdio.h>
 #define snprintf(s, n, ...) verif_snprintf(s, n)
 #define sprintf(s, ...) verif_sprintf(s)
+#ifdef STRCHR_EXACT
+#include <string.h>
+static char *verif_strchr(const char *s, int c);
+#define strchr(s, c) verif_strchr(s, c)
+#endif
 static const long mtime = 1;
 #define mtime(p) mtime_fn(p)
 #include "ex.c"
